@@ -186,6 +186,10 @@ def scenario_parse(rng, tmp, i):
     out, err = run_cli(argv)
     desc = dict(command=argv)
     if err:
+        # filters and exclusions that leave no point at all are refused by the CLI with an explanation; that is consistent with the API
+        # exactly when the same filters mask every point there too
+        if "All data points have been masked" in err and apply_api(data, applied).get_num_points(masked=False) == 0:
+            return desc, None
         return desc, "CLI raised " + err
     data = apply_api(data, applied)
     frs = [fr for fr in fragments(out)]
